@@ -90,6 +90,9 @@ def make_case(seed, shard_index, i, kind, opts=None):
     if case["via_text"]:
         case["via_text"] = rng.choice(["agp", "tpf"])
         labels.add(f"in:via-{case['via_text']}-text")
+        if rng.random() < 0.25:
+            case["pretext_crlf"] = True
+            labels.add("in:pretext-text-with-crlf")
         if case["via_text"] == "agp" and rng.random() < 0.5:
             case["agp_variant"] = rng.choice(["v1.1-gaps", "component-types"])
             labels.add(f"in:agp-{case['agp_variant']}")
@@ -111,7 +114,10 @@ def build_inputs(case):
         from tola.assembly.format import format_agp
         from tola.assembly.parser import parse_agp
 
-        pa = parse_agp(io.StringIO(gpv.pretext_agp_text(case["pretext"], t)), "p")
+        ptxt = gpv.pretext_agp_text(case["pretext"], t)
+        if case.get("pretext_crlf"):
+            ptxt = ptxt.replace("\n", "\r\n")  # a map saved on / passed through a system with CRLF line ends
+        pa = parse_agp(io.StringIO(ptxt, newline=""), "p")
         # PretextView prints 6 decimals: cases are generated with t rounded to 6 decimals
         # the input assembly is written by the reference formatters (so that a parser defect is not
         # cancelled by the matching formatter) as AGP or as TPF, the CLI's two text input formats
